@@ -103,12 +103,15 @@ func NewStdReaderLine() ro.Observable[[]byte] {
 // NewPrompt creates an observable that reads user input after displaying a prompt.
 func NewPrompt(prompt string) ro.Observable[[]byte] {
 	return ro.NewUnsafeObservableWithContext(func(ctx context.Context, destination ro.Observer[[]byte]) ro.Teardown {
+		// One reader for the whole subscription: a new bufio.Reader per line would
+		// throw away whatever the previous one had buffered beyond its first line.
+		reader := bufio.NewReader(os.Stdin)
+
 		for {
 			// Print the prompt to stdout
 			os.Stdout.WriteString(prompt)
 
 			// Read from stdin
-			reader := bufio.NewReader(os.Stdin)
 			line, _, err := reader.ReadLine()
 			if err != nil {
 				if err == io.EOF {
@@ -119,8 +122,11 @@ func NewPrompt(prompt string) ro.Observable[[]byte] {
 				}
 			}
 
-			// Send the input as a byte slice
-			destination.NextWithContext(ctx, line)
+			// Send the input as a byte slice (a copy: line points into the reader's
+			// buffer, which the next ReadLine overwrites)
+			output := make([]byte, len(line))
+			copy(output, line)
+			destination.NextWithContext(ctx, output)
 		}
 
 		destination.CompleteWithContext(ctx)
